@@ -28,8 +28,9 @@ Import ListNotations.
 (* The statements                                                                           *)
 (* ======================================================================================== *)
 
-(* Fun -> Core, as the property words it (every accepted program).  FALSE of the faithful model:
-   C12_fun2core_typing_refuted. *)
+(* Fun -> Core, as the property words it (every accepted program).  FALSE of the faithful model: before fix
+   <commitcap> by variable capture (C12_fun2core_typing_refuted_before_fix), and still by a call of `main`
+   (C12_fun2core_call_main_typing_refuted). *)
 Definition fun2core_preserves_typing_unguarded : Prop :=
   forall src p, Check.check src = COk p ->
   exists c, compile_prog p = Fun2Core.Ok c /\ wt_core c = true.
@@ -76,18 +77,28 @@ Definition codegen_total_rv : Prop :=
 (* Fun -> Core                                                                              *)
 (* ======================================================================================== *)
 
-(* REFUTED.  `def h(n: i64): i64 { label a { let a: i64 = n + 1; a * 2 } }` is accepted - by the model
-   of the checker and by the declarative typing specification - and its translation
+(* REGRESSION (former finding capture-under-binder-typing, fixed in /repo by <commitcap>: a continuation that mentions a
+   name is kept outside of a let / pattern binder of that name).
+   `def h(n: i64): i64 { label a { let a: i64 = n + 1; a * 2 } }` is accepted - by the model of the checker and by the
+   declarative typing specification - and its translation BEFORE THE FIX ([compile_prog_before_fix])
    < mu a. < n + 1 | mu~ a. < a * 2 | a > > | a0 >  is ILL-TYPED: the consumer occurrence of the label's
    covariable a is captured by the mu~ binder of the let variable a.  The same defect as C02's
-   capture-under-binder (known_findings.json), here at the level of typing. *)
-Theorem C12_fun2core_typing_refuted :
+   capture-under-binder (known_findings.json), at the level of typing. *)
+Theorem C12_fun2core_typing_refuted_before_fix :
   exists (src : fprog) (p : fcprog) (c : cprog),
     has_type_b src = true /\ Check.check src = COk p /\ annotated_fcprog p = true /\
-    compile_prog p = Fun2Core.Ok c /\ wt_core c = false /\
+    compile_prog_before_fix p = Fun2Core.Ok c /\ wt_core c = false /\
     shadowing_risk_prog p = true /\ barendregt p = false.
-Proof. exact fun2core_typing_refuted_lemma. Qed.
-Print Assumptions C12_fun2core_typing_refuted.
+Proof. exact fun2core_typing_refuted_before_fix_lemma. Qed.
+Print Assumptions C12_fun2core_typing_refuted_before_fix.
+(* ... the repaired translation of the witness,  < mu a. < mu a1. < n + 1 | mu~ a. < a * 2 | a1 > > | a > | a0 >, is
+   well typed (the witness is outside prog_tyguard, whose capture clause [shadowing_risk] is kept: see
+   C12_fun2core_preserves_typing_fragment2) *)
+Theorem C12_capture_typing_witness_fixed :
+  exists c, compile_prog capture_typing_witness = Fun2Core.Ok c /\ wt_core c = true /\
+            shadowing_risk_prog capture_typing_witness = true.
+Proof. exact capture_typing_witness_fixed_lemma. Qed.
+Print Assumptions C12_capture_typing_witness_fixed.
 
 (* REGRESSION (former finding main-non-integer-result, fixed in /repo by 5b8c76f: Def::check compares the declared
    return type of main with i64).  `data Bar { B }  def main(): Bar { B }` was accepted by the checker that never
